@@ -135,6 +135,11 @@ def check_coinbase(case):
         cls.append("nt:with-commitment")
     cls.append("reward:" + rmode)
     net = "regtest" if regtest else "mainnet"
+    if (h + len(extra)) % 2:
+        # history: a coinbase for the same height on the other halving schedule, with the commitment the other way
+        # round and a default claim, is built first; the call under test must not see anything of it
+        attempt(bits.tx.coinbase_tx, b"\x00", spk, block_height=h, regtest=not regtest, witness_merkle_root_hash=None if root is not None else bytes(32))
+        cls.append("nt:after-same-height-other-schedule")
     got = attempt(bits.tx.coinbase_tx, extra, spk, block_reward=reward, block_height=h, regtest=regtest, witness_merkle_root_hash=root)
     if reward is not None and reward > sub:
         cls.append("nt:reward>subsidy")
@@ -391,9 +396,9 @@ def targets(tier):
     return [
         Target("merkle", check_merkle, enumerate_=enum_merkle, required=["nt:merkle-len-5", "nt:odd-inner-level", "nt:repeated-ids"], exhaustive=True),
         Target("coinbase-heights", check_coinbase, enumerate_=enum_coinbase,
-               required=["nt:height-0", "nt:height-17", "nt:height-128", "nt:height-32768", "nt:halving-210000", "nt:halving-150-regtest", "nt:mainnet-at-regtest-halving"], exhaustive=True),
+               required=["nt:height-0", "nt:height-17", "nt:height-128", "nt:height-32768", "nt:halving-210000", "nt:halving-150-regtest", "nt:mainnet-at-regtest-halving", "nt:after-same-height-other-schedule"], exhaustive=True),
         Target("coinbase", check_coinbase, strategy=lambda tier: coinbase_cases(), budget={"quick": 6000, "thorough": 120000},
-               required=["nt:script-101", "nt:script-100", "nt:with-commitment", "reward:over", "reward:half"]),
+               required=["nt:script-101", "nt:script-100", "nt:with-commitment", "reward:over", "reward:half", "nt:after-same-height-other-schedule"]),
         Target("block", check_block, strategy=lambda tier: block_cases(thorough), budget={"quick": 1500, "thorough": 30000},
                required=["nt:block>=2-txs", "nt:block-with-segwit-tx", "nt:block-dup-tx", "nt:block-tx-wit-item>=253", "nt:block-tx-script>=253", "nt:block-tx-script>=65536", "nt:block-tx-wit-item>=65536"]),
         Target("mine-block", check_mine, strategy=lambda tier: mine_cases(), budget={"quick": 300, "thorough": 6000},
